@@ -71,8 +71,9 @@ PROPS["C18"] = {
 }
 
 PROPS["C16"] = {
-    "imports": ["NsyncVerif.Props.C16Buffer", "NsyncVerif.Props.C16Observer", "NsyncVerif.Props.C01", "NsyncVerif.Props.C16CvObserver"],
+    "imports": ["NsyncVerif.Props.C16Buffer", "NsyncVerif.Props.C16Observer", "NsyncVerif.Props.C01", "NsyncVerif.Props.C16CvObserver", "NsyncVerif.Props.C16Callback"],
     "theorems": ["NsyncVerif.Emit." + t for t in ["C16_buffer", "C16_cstr_unique", "C16_mu_debug_state", "C16_cv_debug_state"]] +
+                ["NsyncVerif.MuC." + t for t in ["C16_no_callback_under_spinlock", "C16_spinlock_regions_callback_free", "C16_spinlock_bit_is_owner"]] +
                 ["NsyncVerif.Props.C16Observer.C16_mu_observer", "NsyncVerif.Props.C16Observer.C16_shares_untouched", "NsyncVerif.Props.C16Observer.spinOnly_spec"] +
                 ["NsyncVerif.Props.C01.C01_exclusion", "NsyncVerif.Props.C01.C01_word_agrees"] +
                 ["NsyncVerif.CvFix." + t for t in ["C16_cv_observer", "C16_cv_observer_holds_word", "C16_cv_no_lost_wake", "C16_cv_observer_release_exact", "C16_cv_observer_progress",
@@ -80,8 +81,8 @@ PROPS["C16"] = {
     "layers": ["mux", "cv"],
     "pure": [{"name": "emit_gen", "dir": "emit", "flavours": [""], "layer": "emit"}],
     "oracles": {"mismatch", "debug-buffer", "exclusion", "exclusion-ann", "panic", "stuck", "crash", "steplimit", "lock-missed", "muwait-missed"},
-    "plan": {"quick": [("debug", 150, 8), ("debug_cond", 80, 8)], "thorough": [("debug", 1500, 16), ("debug_cond", 800, 16)]},
-    "family_layers": {"debug_cond": ["mux"]},
+    "plan": {"quick": [("debug", 150, 8), ("debug_cond", 80, 8), ("muc", 60, 6)], "thorough": [("debug", 1500, 16), ("debug_cond", 800, 16), ("muc", 600, 12)]},
+    "family_layers": {"debug_cond": ["mux"], "muc": ["muc", "mux"]},
     "extra_corpus": ["C01"],
     "level_text": "Buffer half: kernel-checked theorem C16_buffer over the Emit model (emit_init/emit_c/emit_print of debug.c) for every n (incl. 0 and negative) and every NUL-free character stream: writes only inside buf[0..n-1], NUL-terminated for n>=1, ends in '...' when truncated and n>=4, untruncated output is exact; tied by a differential run of the real debug.c (canaries around the buffer, all n in -1..80, states with 0..3 queued waiters). Observer half (mutex): in the MuX protocol a debug-state call is an `observe` call whose only admitted writes toggle MU_SPINLOCK and nothing else; C16_mu_observer proves that a step of an observing thread changes no owner, no client-visible holder, no lock bit and none of the six hint bits (the wake-up bookkeeping), for every reachable state and interleaving, and C01's exclusion theorem quantifies over programs containing observers; tied by lockstep replay of debug-family scenarios (the acceptor rejects any other write by a debug caller — this is how F1 was found) plus exclusion/progress oracles. Observer half (condition variable): the CvFix model contains the debug callers (load; for the *_and_waiters / debugger variants the spinlock loop, the walk over the queue with its loads of `waiting` and `remove_count`, the release store); a step of a thread inside a debug call changes nothing of the cv state but the spinlock bit, the release store writes exactly the word the test-and-set returned, which equals the current word minus the spinlock bit (this uses 'every change of the cv word happens under the spinlock'), so the queue invariant and the no-lost-wake-up theorem of C04 hold in every reachable state of the model WITH observers (C16_cv_observer, C16_cv_observer_release_exact, C16_cv_no_lost_wake); an observer holds the spinlock for a number of own steps bounded by twice the queue length, the non-blocking variants never wait for it, and no observer ever performs a semaphore operation (C16_cv_observer_progress); the records it reads are queued with their owners inside their waits (C16_cv_observer_record_access); a stale release word is rejected (C16_cv_stale_release_rejected). Tied by lockstep replay of the debug family through the CvFix acceptor.",
     "level_note": "Observer half: 'never loses a wake-up / never deadlocks' is proved as 'touches nothing but the spinlock bit' (mutex); the liveness consequence (other threads' progress is unaffected) relies on C02's invariants, which are stated for programs without debug calls — the spinlock is released after finitely many own steps (no loop between the two CASes except the printing). emit_print's varargs formatting is modelled for %s and %i only (all that debug.c uses).",
@@ -146,8 +147,9 @@ PROPS["C03"] = {
 
 MUQ = "NsyncVerif.MuQ."
 PROPS["C02"] = {
-    "imports": ["NsyncVerif.Props.C02", "NsyncVerif.Props.C02Progress", "NsyncVerif.Props.C02Fair"],
-    "theorems": [MUQ + t for t in ["C02_try_wait_free", "C02_inv_spin", "C02_inv_spin_queue", "C02_inv_lock", "C02_inv_queue", "C02_inv_hint",
+    "imports": ["NsyncVerif.Props.C02", "NsyncVerif.Props.C02Progress", "NsyncVerif.Props.C02Fair", "NsyncVerif.Props.C06"],
+    "theorems": ["NsyncVerif.MuC." + t for t in ["C06_no_stuck_state", "C06_responsible", "C06_responsible_pending", "C06_lock_slow_record"]] +   # the same on a mutex also used with nsync_mu_wait / nsync_mu_unlock_without_wakeup
+                [MUQ + t for t in ["C02_try_wait_free", "C02_inv_spin", "C02_inv_spin_queue", "C02_inv_lock", "C02_inv_queue", "C02_inv_hint",
                  "C02_responsible", "C02_woken_not_lost", "C02_no_stuck_state", "C02_solo_progress_partial",
                  "C02_solo_progress", "C02_solo_acquire", "C02_solo_release", "C02_thread_enabled", "C02_awake_responsible", "C02_leads_to_wake",
                  "C02_can_always_complete", "C02_stage_monotone",
@@ -162,8 +164,10 @@ PROPS["C02"] = {
     "level_note": "Scope of the theorems is the property's own quantifier (core operations on one mutex; a mutex used with mu_wait/cv/wait_n/debug is out of MuQ's scope and covered by lockstep through MuX plus the progress oracle only). 'Eventually returns' is a theorem about the model's infinite executions (C02_fair_termination) under weak fairness + the property's own hypothesis (holders release) + two side hypotheses that the formalisation shows to be necessary: finitely many failed CASes on the foreign remove_count word (the acceptor admits such a failure whenever the log reports one), and finite arrivals (a thread can be overtaken between its load and its enqueue CAS by lock/unlock pairs on the fast paths for ever; nsync bounds barging once a waiter has escalated — C14 — but the statement is about arbitrary arrivals). Waiter-pool allocation is an allocator contract.",
 }
 PROPS["C14"] = {
-    "imports": ["NsyncVerif.Props.C14"],
-    "theorems": [MUQ + t for t in ["C14_escalates", "C14_sets_bit", "C14_requeue_front", "C14_blocks_fresh", "C14_cleared_only_by_long_waiter", "C14_woken_ignores_hints"]],
+    "imports": ["NsyncVerif.Props.C14", "NsyncVerif.Props.C14Cv"],
+    "theorems": [MUQ + t for t in ["C14_escalates", "C14_sets_bit", "C14_requeue_front", "C14_blocks_fresh", "C14_cleared_only_by_long_waiter", "C14_woken_ignores_hints"]] +
+                ["NsyncVerif.CvFix." + t for t in ["C14_cv_relock_slow_only_transferred", "C14_cv_untransferred_uses_plain_lock", "C14_cv_reacquire_paths_exclusive",
+                 "C14_cv_xferd_is_transfer", "C14_cv_transferred_was_woken_by_waker"]],
     "layers": ["muq", "mux"],
     "tie": ["NsyncVerif.Proofs.TieConsts"],
     "oracles": {"stuck", "steplimit", "panic", "starved"},
@@ -197,8 +201,9 @@ NOT_YET.update({
 
 CV = "NsyncVerif.CvFix."
 PROPS["C04"] = {
-    "imports": ["NsyncVerif.Props.C04Fix"],
-    "theorems": [CV + t for t in ["C04_queue_inv", "C04_spinlock_excl", "C04_wait_atomic", "C04_unlink_once", "C04_unlink_once_full_true", "C04_unlinker_by_status",
+    "imports": ["NsyncVerif.Props.C04Fix", "NsyncVerif.Props.C04WaitN"],
+    "theorems": ["WaitN." + t for t in ["C04_waitn_atomic", "C04_waitn_release_after_enqueue", "C04_waitn_enqueued_at_release", "C04_waitn_enqueued_while_unlocked"]] +
+                [CV + t for t in ["C04_queue_inv", "C04_spinlock_excl", "C04_wait_atomic", "C04_unlink_once", "C04_unlink_once_full_true", "C04_unlinker_by_status",
                  "C04_remove_count_handshake", "C04_outcome_partial", "C04_exitUnl_is_unl", "C04_outcome", "C04_waker_unlinked_is_ready", "C04_dequeue_waits_for_waker",
                  "C04_signal", "C04_broadcast", "C04_broadcast_unlinks_all", "C04_no_lost_wake", "C04_f3_schedule_fixed", "C04_f3_old_behaviour_rejected"]],
     "layers": ["cv", "mux"],
@@ -272,19 +277,20 @@ PROPS["C11"] = {
 }
 
 PROPS["C13"] = {
-    "imports": ["NsyncVerif.Props.C13Mu", "NsyncVerif.Props.C13CvFix", "NsyncVerif.Props.C13WaitN", "NsyncVerif.Props.C13Cancel", "NsyncVerif.Props.PoolContract"],
-    "theorems": ["NsyncVerif.MuQ." + t for t in ["C13_release_point", "C13_before_release_point", "C13_release_is_last_needed"]] +
+    "imports": ["NsyncVerif.Props.C13Mu", "NsyncVerif.Props.C13CvFix", "NsyncVerif.Props.C13WaitN", "NsyncVerif.Props.C13Cancel", "NsyncVerif.Props.PoolContract", "NsyncVerif.Props.C13Note"],
+    "theorems": ["Note." + t for t in ["C13_note_wake_loop_holds_lock", "C13_note_locked_notified_has_no_waiters", "C13_note_dequeue_leaves_nothing"]] +
+                ["NsyncVerif.MuQ." + t for t in ["C13_release_point", "C13_before_release_point", "C13_release_is_last_needed"]] +
                 ["NsyncVerif.CvFix." + t for t in ["C13_record_touch", "C13_record_touch_nw_full_true", "C13_listed_owner_waits", "C13_listed_alive",
                  "C13_owner_returns_clean", "C13_owner_returns_clean_waitn", "C13_idle_not_touched", "C13_late_V_touches_nothing"]] +
                 [WN + t for t in ["C13_record_lifetime", "C13_owner_access", "C13_record_lifetime_post", "C13_owner_returns_after", "C13_owner_returns_after_stack"]] +
                 ["SemWait." + t for t in ["C13_cancel_record_touch", "C13_cancel_owner_access", "C13_cancel_owner_returns_clean", "C13_cancel_remove_safe"]] +
                 ["Pool." + t for t in ["Pool_exclusive", "Pool_exclusive_trace", "Pool_free_list_inv", "Pool_init", "Pool_remove_count_monotone", "Pool_reserved", "Pool_no_leak_partial", "Pool_client_checks"]],
     "layers": ["pool", "muq", "mux"],
-    "family_layers": {"note": ["pool", "note", "mux"], "note_wc": ["pool", "note", "mux"], "cancel_children": ["pool", "semwait", "mux"], "refcount": ["pool", "muq", "mux"], "core": ["pool", "muq", "mux"], "waitn": ["pool", "waitn", "cv", "mux"], "waitn_rep": ["pool", "waitn", "cv", "mux"], "waitn_cv": ["pool", "waitn", "cv", "mux"],
+    "family_layers": {"refcount_mw": ["pool", "muc", "mux"], "note": ["pool", "note", "mux"], "note_wc": ["pool", "note", "mux"], "cancel_children": ["pool", "semwait", "mux"], "refcount": ["pool", "muq", "mux"], "core": ["pool", "muq", "mux"], "waitn": ["pool", "waitn", "cv", "mux"], "waitn_rep": ["pool", "waitn", "cv", "mux"], "waitn_cv": ["pool", "waitn", "cv", "mux"],
                       "waitn_f3": ["pool", "waitn", "cv", "mux"], "cv": ["pool", "semwait", "cv", "mux"], "muc": ["pool", "semwait", "muc", "mux"], "cancel_only": ["pool", "semwait", "cv", "muc", "mux"], "corpus": ["pool", "waitn", "cv", "mux"]},
     "oracles": {"dead-object", "dead-stack", "stuck", "steplimit", "panic", "crash", "exclusion", "exclusion-ann"},
-    "plan": {"quick": [("refcount", 150, 10), ("waitn", 100, 8), ("waitn_rep", 80, 8), ("waitn_f3", 60, 8), ("cv", 80, 8), ("muc", 40, 6), ("cancel_only", 80, 8), ("note", 60, 8), ("note_wc", 100, 10), ("cancel_children", 60, 10), ("refcount@ps", 100, 10), ("waitn_rep@ps", 60, 8), ("cv@ps", 60, 8)],
-             "thorough": [("refcount", 1500, 20), ("waitn", 1000, 16), ("waitn_rep", 800, 16), ("waitn_f3", 600, 16), ("cv", 800, 16), ("muc", 400, 12), ("cancel_only", 800, 16), ("note", 600, 16), ("note_wc", 1000, 20), ("cancel_children", 600, 20), ("refcount@ps", 1000, 20), ("waitn_rep@ps", 600, 16), ("cv@ps", 600, 16)]},
+    "plan": {"quick": [("refcount", 150, 10), ("refcount_mw", 100, 12), ("waitn", 100, 8), ("waitn_rep", 80, 8), ("waitn_f3", 60, 8), ("cv", 80, 8), ("muc", 40, 6), ("cancel_only", 80, 8), ("note", 60, 8), ("note_wc", 100, 10), ("cancel_children", 60, 10), ("refcount@ps", 100, 10), ("waitn_rep@ps", 60, 8), ("cv@ps", 60, 8)],
+             "thorough": [("refcount", 1500, 20), ("refcount_mw", 1000, 24), ("waitn", 1000, 16), ("waitn_rep", 800, 16), ("waitn_f3", 600, 16), ("cv", 800, 16), ("muc", 400, 12), ("cancel_only", 800, 16), ("note", 600, 16), ("note_wc", 1000, 20), ("cancel_children", 600, 20), ("refcount@ps", 1000, 20), ("waitn_rep@ps", 600, 16), ("cv@ps", 600, 16)]},
     "harness_args": ["checkplain=1"],
     "level_text": "Kernel-checked theorems: (mutex, MuQ model) once a thread inside nsync_mu_unlock / runlock / unlock_slow owns neither a share nor the spinlock, no later step of that call touches the mutex, and the step that crosses that point is a successful CAS on the word (C13_release_point, C13_release_is_last_needed): whoever acquires afterwards and frees the memory races with nothing; (cv, CvFix model of the repaired cv.c) every access to a waiter record by a thread other than its owner happens while the record is queued or on that waker's private list with its owner still inside the wait, for pooled records and for nsync_wait_n records alike, and the owner returns only after the record is on no list (C13_record_touch, C13_record_touch_nw_full_true, C13_owner_returns_clean[_waitn]); the V that follows the waker's last store touches no record (C13_late_V_touches_nothing); (nsync_wait_n, WaitN model) every access by a non-owner to a record of notes / counters / cvs is to a registered record, and at the return no record of the call is registered, queued or on a waker's list (C13_record_lifetime, C13_owner_returns_after); (cancellable cv / mu waits, SemWait model of sem_wait.c with the note-side walk of note.c) every access by a notifier to the on-stack record of nsync_sem_wait_with_cancel_ happens under the note's mutex with the record at the head of the note's list or just popped, while the owner is between its enqueue and the return of its final nsync_mu_lock (&note_mu), and the owner returns with the record on no list and no post owed (C13_cancel_record_touch, C13_cancel_owner_returns_clean). The waiter-pool contract all these layers assume is itself modelled and proved (Pool layer over common.c: a waiter struct is in use by at most one call at a time, the free list holds exactly the idle non-reserved structs and is touched only under its spinlock, `remove_count` / `waiting` / `flags` / `sem` are written by pool code only in the initialisation block — so remove_count is monotone across reuses —, a thread's reserved struct comes back to that thread: Pool_exclusive, Pool_free_list_inv, Pool_init, Pool_remove_count_monotone, Pool_reserved). Tied to the code by lockstep (refcount / waitn* / cv / muc families through the matching acceptors) and by the runtime's liveness tracking: every atomic AND plain access (TSan instrumentation) of every explored execution is checked against reclaimed heap blocks, reclaimed mutexes and dead stack records (oracles dead-object, dead-stack).",
     "level_note": "The SemWait layer models ONE flat cancel note per record (parents enter through an `inherit` event) and protocol-driven notifiers; the forest is the Note layer's business. Defect F3 (found by this property's oracle) is repaired in /repo; the pre-repair model and refutation are kept (Props/C13Cv.lean). Sampled correspondence.",
@@ -298,10 +304,10 @@ PROPS["C05"] = {
                 ["SemWait." + t for t in ["C05_cancel_reason", "C05_cancel_reason_enqueued", "C05_cancel_consumed_step", "C05_cancel_zero_takes_token", "C05_cancel_no_missed",
                  "C05_cancel_unlock_needs_empty", "C05_cancel_p_deadline", "C05_cancel_deadline_bound", "C05_cancel_l65_notified"]],
     "layers": ["cv", "mux"],
-    "family_layers": {"cv": ["semwait", "cv", "mux"], "cv_raw": ["cv", "mux"], "muwait": ["muc", "mux"], "muc": ["semwait", "muc", "mux"], "cancel_only": ["semwait", "cv", "muc", "mux"], "cancel_children": ["semwait", "mux"], "longwait_timeout": ["muc", "mux"], "timed_contended": ["cv", "muc", "mux"]},
-    "oracles": {"early-timeout", "bad-cancel", "bad-result", "muwait-result", "swallowed-wakeup", "exclusion", "exclusion-ann", "stuck", "steplimit", "panic", "crash", "dead-object"},
-    "plan": {"quick": [("cv", 120, 8), ("cv_raw", 40, 8), ("muwait", 100, 8), ("muc", 80, 6), ("cancel_only", 120, 10), ("cancel_children", 80, 10), ("timed_contended", 100, 10), ("longwait_timeout", 30, 6)],
-             "thorough": [("cv", 1200, 16), ("cv_raw", 400, 16), ("muwait", 1000, 16), ("muc", 800, 12), ("cancel_only", 1200, 20), ("cancel_children", 800, 20), ("timed_contended", 1000, 20), ("longwait_timeout", 300, 10)]},
+    "family_layers": {"cv": ["semwait", "cv", "mux"], "cv_raw": ["cv", "mux"], "muwait": ["muc", "mux"], "muc": ["semwait", "muc", "mux"], "cancel_only": ["semwait", "cv", "muc", "mux"], "cancel_children": ["semwait", "mux"], "longwait_timeout": ["muc", "mux"], "timed_contended": ["cv", "muc", "mux"], "muc_cv": ["cv", "muc", "mux"]},
+    "oracles": {"early-timeout", "bad-cancel", "bad-result", "muwait-result", "swallowed-wakeup", "exclusion", "exclusion-ann", "stuck", "steplimit", "panic", "crash", "dead-object", "cv-woken-asleep", "muwait-missed", "lock-missed"},
+    "plan": {"quick": [("cv", 120, 8), ("cv_raw", 40, 8), ("muwait", 100, 8), ("muc", 80, 6), ("cancel_only", 120, 10), ("cancel_children", 80, 10), ("timed_contended", 100, 10), ("longwait_timeout", 30, 6), ("muc_cv", 80, 8)],
+             "thorough": [("cv", 1200, 16), ("cv_raw", 400, 16), ("muwait", 1000, 16), ("muc", 800, 12), ("cancel_only", 1200, 20), ("cancel_children", 800, 20), ("timed_contended", 1000, 20), ("longwait_timeout", 300, 10), ("muc_cv", 800, 16)]},
     "harness_args": ["checkplain=1"],
     "level_text": "Kernel-checked theorems. cv half (CvFix model of cv.c + sem_wait.c): the value returned by nsync_cv_wait_with_deadline is the recorded outcome of the sleep (C05_result_is_outcome); ETIMEDOUT only with the deadline reached on the model clock, ECANCELED only with the cancel note notified (C05_timedout, C05_cancelled); once the outcome is non-zero the thread performs no further semaphore wait in this call before re-acquiring the mutex (C05_no_resleep, C05_not_sleeping). mu_wait half (MuC model of mu_wait.c on top of the mutex core): the call returns holding the mutex in the mode it was called with (C05_mode), returns 0 exactly when the condition is true at the return (C05_mu_wait_0), ETIMEDOUT / ECANCELED only for the stated reason (C05_timedout, C05_cancelled), a timed P never outlasts the deadline (C05_timed_p_deadline), and after a non-zero outcome no P is issued in that pass of the wait loop (C05_no_resleep_partial). The shared sleep nsync_sem_wait_with_cancel_ (SemWait model: sem_wait.c with the note concretely — flag, deadline, list, mutex): ECANCELED only with the note notified or expired, ETIMEDOUT only with the deadline reached, 0 only with a token consumed (C05_cancel_reason); the P is issued with min(deadline, note expiry) and a timeout with the note's deadline nearer is converted to ECANCELED after the waiter itself notified the note (C05_cancel_p_deadline, C05_cancel_deadline_bound); and 'needs no further wake-up' in safety form: a notified note never leaves a waiter asleep unless its record is queued with the notifier holding the note's mutex, or a post is owed or pending (C05_cancel_no_missed — the control trace with the re-read under the lock removed is accepted by the variant model and ends with the waiter lost). Tied to the code by lockstep (cv / cv_raw families through CvFix, muwait / muc families through MuC, with cancel notes fresh / already notified / expiring, reader and writer mode) and by the interpreter's assertions on every wait return (shadow lock mode, virtual clock vs deadline, note flag, value of the condition).",
     "level_note": "The literal reading 'no further semaphore wait' is REFUTED for nsync_mu_wait_with_deadline (C05_no_resleep_full_refuted: a timed-out waiter re-acquires through lock_slow and may sleep there; with the condition false it goes round the loop again with an already expired deadline) — this is consistent with the property's own wording ('returns as soon as the mutex can be re-acquired'), so it is not a finding. 'Holding the lock in the same mode' for the cv half rests on the mutex layer (C01/C02) and the interpreter's shadow mode. The cancel note is abstract in the CvFix and MuC models (they assume the waiter's own lazy-expiry notify does not sleep — with children of the cancel note being disconnected it may, in WAIT_FOR_NO_CHILDREN; such executions, family cancel_children, are replayed through SemWait and MuX only) and concrete in SemWait (one flat note per record). Fair termination is a paper step; termination of every explored execution is checked (oracle stuck).",
